@@ -55,6 +55,7 @@ def main(argv=None):
     ap.add_argument("--case", default=None, help="regex on case repr")
     ap.add_argument("--replay", default=None)
     ap.add_argument("--no-evidence", action="store_true")
+    ap.add_argument("--write-ledger", action="store_true", help="record the obligations discharged on this (pinned, repaired) tree")
     ap.add_argument("-v", "--verbose", action="store_true")
     args = ap.parse_args(argv)
     pid = args.property
@@ -114,6 +115,16 @@ def main(argv=None):
 def report(pid, args, classes, results, wall, C):
     findings = load_findings()
     os.makedirs(os.path.join(ROOT, "replays", pid), exist_ok=True)
+
+    def okey(r, name):
+        return hashlib.sha1(f"{r['contract']}|{json.dumps(r['case'], sort_keys=True, default=str)}|{name}".encode()).hexdigest()[:12]
+
+    ledger_path = os.path.join(ROOT, "ledger", f"{pid}.json")
+    if args.write_ledger:
+        os.makedirs(os.path.dirname(ledger_path), exist_ok=True)
+        keys = sorted({okey(r, n) for r in results for n in r.get("proved_names", [])})
+        json.dump({"property": pid, "tier": args.tier, "discharged": keys}, open(ledger_path, "w"))
+    ledger = set(json.load(open(ledger_path))["discharged"]) if os.path.exists(ledger_path) else set()
     violations = []
     known_hit = {}
     undecided = []
@@ -152,6 +163,11 @@ def report(pid, args, classes, results, wall, C):
                 samples.append({"contract": r["contract"], "case": r["case"], **s})
         fails = []
         for f in r["failed"]:
+            if not f.get("replay", {}).get("confirmed") and okey(r, f["name"]) not in ledger:
+                # refuted symbolically, but the counter-model does not fail on the real code and the obligation is not
+                # recorded as discharged on the pinned tree: undecided, never a violation
+                undecided.append(f"{r['contract']} {r['case']}: {f['name']}: refuted by {f['backend']} but not reproduced on the real code (not in ledger)")
+                continue
             fails.append(("symbolic", f))
         for f in r["bounded"]["failures"]:
             if f.get("kind") in ("property", "frame"):
